@@ -193,7 +193,7 @@ def c08_prog(name, kind, nfields, ops, generic=False):
     fty = "T" if generic else "L"
     g = "<T>" if generic else ""
     XI = "X<L>" if generic else "X"
-    names = "abcd"[:nfields]
+    names = (["zed", "alpha", "mid", "beta"] if kind == "named" else list("abcd"))[:nfields]
     if kind == "unit":
         decl = "pub struct X;"
     elif kind == "named":
@@ -904,3 +904,39 @@ def c20_prog(name, rng, names=None):
             item = "pub struct %s%s%s%s;" % (X, g, body(v[1], v[2], "pub "), where)
     text = head + item + "\n\npub fn replay(_h: &str, _b: &[u8]) -> (bool, String) { (true, String::new()) }\n"
     return Prog(name, text, [], {"describe": "derive_ex(%s) [%s] %s" % (lst, entry, _re.sub(r"\s+", " ", item))})
+
+
+
+def c09_nested_self_prog(name, op, base_r_ref, generic):
+    """`Self` nested inside path types of Output, Rhs-independent where-clause: `type Output = Option<Self>`, `where Option<Self>: Sized`,
+    base `impl Op<R> for T` (by-value lhs); the derived `&T` forms must name T there, not &T."""
+    k = BINOPS.index(op)
+    f = FN[op]
+    LT = "G<T>" if generic else "A"
+    LI = "G<u8>" if generic else "A"
+    ig = "<T: Copy>" if generic else ""
+    tfield = ", t: self.t" if generic else ""
+    rty = ("&" if base_r_ref else "") + LT
+    user = ("#[derive_ex::derive_ex(%s)]\nimpl%s core::ops::%s<%s> for %s where Option<Self>: Sized, (Self, u8): Sized {\n    type Output = Option<Self>;\n"
+            "    fn %s(self, rhs: %s) -> Option<Self> { Some(%s { v: uf(%d, self.v, rhs.v), c: (self.c << 4) | rhs.c%s }) }\n}\n"
+            % (op, ig, op, rty, LT, f, rty, "G" if generic else "A", k, tfield))
+    wrappers, proofs, replays, harnesses = [], [], [], []
+    ev = "uf(%d, x.v, y.v)" % k
+    for dl in (False, True):
+        for dr in (False, True):
+            if (not dl) and dr == base_r_ref:
+                continue
+            h = "bin_%s%s" % ("r" if dl else "v", "r" if dr else "v")
+            la = "x" if dl else "x.dup()"
+            ra = "y" if dr else "y.dup()"
+            lc = "(x.c + %d)" % (1 if dl else 0)
+            rc = "(y.c + %d)" % (1 if (dr and not base_r_ref) else 0)
+            post = "(match r { Some(a) => a.v == %s && a.c == ((%s << 4) | %s), None => false })" % (ev, lc, rc)
+            wrappers.append("#[cfg_attr(kani, kani::ensures(|r: &Option<%s>| %s))]\npub fn w_%s(x: &%s, y: &%s) -> Option<%s> { core::ops::%s::%s(%s, %s) }" % (LI, post, h, LI, LI, LI, op, f, la, ra))
+            proofs.append("    #[kani::proof_for_contract(w_%s)]\n    pub fn %s() { let mut s = KaniSrc; let x = <%s as Mk>::mk(&mut s); let y = <%s as Mk>::mk(&mut s); let _r = w_%s(&x, &y); kani::cover!(true); }" % (h, h, LI, LI, h))
+            replays.append('        "%s" => { let x = <%s as Mk>::mk(&mut s); let y = <%s as Mk>::mk(&mut s); let r = w_%s(&x, &y); let r = &r; (%s, format!("x={:?} y={:?} %s -> {:?}", x, y, r)) }' % (h, LI, LI, h, post, h))
+            harnesses.append(h)
+    wrappers.append("pub fn output_carries_over() where <&'static %s as core::ops::%s<&'static %s>>::Output: SameTy2<Option<%s>> {}" % (LI, op, LI, LI))
+    text = user + "\n" + C09_TYPES + "pub trait SameTy2<B: ?Sized> {} impl<A_: ?Sized> SameTy2<A_> for A_ {}\n" + "\n".join(wrappers) + "\n#[cfg(kani)]\npub mod proofs {\n    use super::*;\n%s\n}\n" % "\n".join(proofs)
+    text += "pub fn replay(h: &str, b: &[u8]) -> (bool, String) {\n    let mut s = VecSrc { v: b.to_vec(), i: 0 };\n    match h {\n%s\n        _ => (true, String::from(\"unknown harness\")),\n    }\n}\n" % "\n".join(replays)
+    return Prog(name, text, harnesses, {"describe": "impl %s<%s> for %s where Option<Self>: Sized { type Output = Option<Self> }  derive_ex(%s)" % (op, rty, LT, op)})
